@@ -58,20 +58,25 @@ Section Alm.
   (* ---------------- alm-helpers.tpp ---------------- *)
 
   (* one component of the non-single branch:
-       if (first_iter || |e_i| > θ |old_e_i|)  Σ_i = fmin(max_penalty, fmax(Δ |e_i| / norm_e, 1) * Σ_i) *)
+       if (first_iter || |e_i| > θ |old_e_i|) {
+           new_Σ = fmin(max_penalty, fmax(Δ |e_i| / norm_e, 1) * Σ_i);
+           Σ_i   = fmax(Σ_i, new_Σ);      // never lower a penalty (the caller's may exceed max_penalty)
+       } *)
   Definition upd1 (P : alm_params) (first : bool) (norm_e : T) (e olde σ : T) : T :=
     if first || (p_theta P * nabs olde <? nabs e)
-    then nfmin (p_max_pen P) (nfmax (p_Delta P * nabs e / norm_e) n1 * σ)
+    then nfmax σ (nfmin (p_max_pen P) (nfmax (p_Delta P * nabs e / norm_e) n1 * σ))
     else σ.
 
   (* single_penalty_factor branch:
-       if (first_iter || norm_e > θ old_norm_e)  Σ.setConstant(fmin(max_penalty, Δ Σ(0))) *)
+       if (first_iter || norm_e > θ old_norm_e) {
+           new_Σ = fmin(max_penalty, Δ Σ(0));  Σ.setConstant(fmax(Σ(0), new_Σ));
+       } *)
   Definition upd_single (P : alm_params) (first : bool) (norm_e old_norm : T) (Σ : list T) : list T :=
     match Σ with
     | [] => []
     | σ0 :: _ =>
         if first || (p_theta P * old_norm <? norm_e)
-        then map (fun _ => nfmin (p_max_pen P) (p_Delta P * σ0)) Σ
+        then map (fun _ => nfmax σ0 (nfmin (p_max_pen P) (p_Delta P * σ0))) Σ
         else Σ
     end.
 
